@@ -118,6 +118,23 @@ template <class T> static void inplace (Gen<T>& g, int it)
     { R2 = Q; R2.rotate (a); S2.setRotation (a); rec ("rotate-right", 2, jv (Q), jv (a), jv (S2), jv (R2)); }
 }
 
+// addOffset(in, t, r (degrees), s, ref) = scale(s) * [rotate(r) with translation row t] * in * ref
+template <class T> static void addoffset (Gen<T>& g, int it)
+{
+    int mode = it % 3;
+    auto v = [&] () { return Vec3<T> (g.pick (mode), g.pick (mode), g.pick (mode)); };
+    Matrix44<T> in, ref;
+    for (int i = 0; i < 4; ++i) for (int j = 0; j < 4; ++j) { in[i][j] = g.pick (mode); ref[i][j] = g.pick (mode); }
+    if (it % 2) { in[0][3] = in[1][3] = in[2][3] = 0; in[3][3] = 1; ref[0][3] = ref[1][3] = ref[2][3] = 0; ref[3][3] = 1; }      // frames proper
+    Vec3<T> tO = v (), sO = v ();
+    Vec3<T> rO ((T) (15 * g.rng.range (-12, 12)), (T) (15 * g.rng.range (-12, 12)), (T) (15 * g.rng.range (-12, 12)));          // degrees
+    if (it % 5 == 0) rO = Vec3<T> (0, 0, 0);
+    if (it % 5 == 1) tO = Vec3<T> (0, 0, 0);
+    Matrix44<T> R; R.rotate (rO * T (M_PI / 180.0));            // the rotation builder (judged by its own records)
+    Rec r ("addoffset"); r.str ("t", tg<T> ()); r.raw ("in", jv (in)); r.raw ("ref", jv (ref)); r.raw ("to", jv (tO)); r.raw ("ro", jv (rO)); r.raw ("so", jv (sO));
+    r.raw ("R", jv (R)); r.raw ("out", jv (addOffset (in, tO, rO, sO, ref))); r.emit ();
+}
+
 template <class T> static void frames (Gen<T>& g, int it)
 {
     const char* t = tg<T> ();
@@ -217,6 +234,7 @@ int main (int argc, char** argv)
         builders<float> (gf, it); builders<double> (gd, it);
         inplace<float> (gf, it); inplace<double> (gd, it);
         frames<float> (gf, it); frames<double> (gd, it);
+        addoffset<float> (gf, it); addoffset<double> (gd, it);
     }
     return 0;
 }
